@@ -16,6 +16,7 @@ type Term struct {
 	Name string // variables
 	A, B int    // extract hi/lo; zext/sext amount in A
 	ID   int
+	gen  int // path generation in which this variable was (re)created
 }
 
 type termKey struct {
@@ -34,6 +35,8 @@ type TermTable struct {
 	True  *Term
 	False *Term
 	Vars  []*Term
+	Gen      int
+	PathVars []*Term
 }
 
 func NewTermTable() *TermTable {
@@ -113,7 +116,18 @@ func (tt *TermTable) Bool(b bool) *Term {
 }
 
 func (tt *TermTable) Var(name string, w int) *Term {
-	return tt.mk(&Term{Op: "var", W: w, Name: name})
+	t := tt.mk(&Term{Op: "var", W: w, Name: name})
+	if t.gen != tt.Gen {
+		t.gen = tt.Gen
+		tt.PathVars = append(tt.PathVars, t)
+	}
+	return t
+}
+
+// NewPath starts a new generation of path-local variables (models are read for these only).
+func (tt *TermTable) NewPath() {
+	tt.Gen++
+	tt.PathVars = nil
 }
 
 func (tt *TermTable) Not(a *Term) *Term {
@@ -605,7 +619,9 @@ func (t *Term) ref() string {
 	case "const":
 		return constStr(t)
 	case "var":
-		return t.Name
+		// the width is part of the SMT symbol: the same label may be used with different widths on
+		// different paths and declarations are global in the persistent solver
+		return fmt.Sprintf("%s!%d", t.Name, t.W)
 	}
 	return fmt.Sprintf("t!%d", t.ID)
 }
@@ -661,7 +677,7 @@ func define(t *Term, sent *[]bool, out *strings.Builder) {
 		}
 		x := f.t
 		if x.Op == "var" {
-			fmt.Fprintf(out, "(declare-const %s %s)\n", x.Name, sortStr(x.W))
+			fmt.Fprintf(out, "(declare-const %s %s)\n", x.ref(), sortStr(x.W))
 		} else {
 			fmt.Fprintf(out, "(define-fun t!%d () %s %s)\n", x.ID, sortStr(x.W), x.body())
 		}
